@@ -27,7 +27,7 @@ ID = 'C08'
 
 MANIFEST = dict(
     technique='explicit-state exploration of all page-processing histories on long-lived real PageDecoder / PageParser objects x decoder configurations; differential oracle against a fresh instance; parallel mode modelled as share-nothing deep copies over all task assignments, plus a real multi-process conformance run',
-    text='Bounded exhaustive: every history of up to 3 (quick) / 4 (thorough) pages over an 8-page alphabet (6 core pages beyond depth 2) on one PageDecoder in 21 configurations (greedy, beam, beam+LM and beam-1+LM with and without carried state x confidence threshold None/0.5/0) and over a 5-page image alphabet on one PageParser in 4 configurations; the last page of every history must come out exactly as from a fresh instance (transcriptions, confidences, logits). Every assignment of every 3-page batch to two fork-time copies must equal the sequential run, and parse_folder --process-count 2 must write the same PAGE XML and line crops as --process-count 1 (model-free stage, as the tool supports). Added: beam-1 + LM configurations, a page that needs a beam of three prefixes and a page whose first frame has a single candidate (all histories of up to two pages include them); every history of up to three imports of PAGE documents whose lines carry no heights (the heights the loader derives must equal those of the document loaded on its own). Histories of pages through the model-free LINES_SIMPLE_THRESHOLD layout stage of one PageParser (sparse and densely traced region outlines).',
+    text='Bounded exhaustive: every history of up to 3 (quick) / 4 (thorough) pages over an 8-page alphabet (6 core pages beyond depth 2) on one PageDecoder in 21 configurations (greedy, beam, beam+LM and beam-1+LM with and without carried state x confidence threshold None/0.5/0) and over a 5-page image alphabet on one PageParser in 4 configurations; the last page of every history must come out exactly as from a fresh instance (transcriptions, confidences, logits). Every assignment of every 3-page batch to two fork-time copies must equal the sequential run, and parse_folder --process-count 2 must write the same PAGE XML and line crops as --process-count 1 (model-free stage, as the tool supports). Added: beam-1 + LM configurations, a page that needs a beam of three prefixes and a page whose first frame has a single candidate (all histories of up to two pages include them); every history of up to three imports of PAGE documents whose lines carry no heights (the heights the loader derives must equal those of the document loaded on its own). Histories of pages through the model-free LINES_SIMPLE_THRESHOLD layout stage of one PageParser (sparse and densely traced region outlines). Added: two pages with a line that cannot be decoded (no logits; an LM primed from a kept line with an unknown character) in all PageDecoder histories of up to two pages; a run-length sweep (a 3-line and a 5-line page after n one-line pages for EVERY n up to 32 / 64, so that anything counted over the lifetime of the decoder passes every phase at every line of the last page); every history of up to 3 / 4 pages over a 7-page alphabet (text direction seen by a stub orientation network x baselines running right, left, down, up) through one PageParser with a LINE_FILTER stage in 2 configurations.',
     note='OS scheduling of real worker processes is modelled (share-nothing copies), not explored; toy LM; the CNN layout engine\'s adaptive down-sampling state needs a trained network and is not covered.',
     ref='3/C08')
 
@@ -44,10 +44,23 @@ LINES = {
     #    with a narrower beam '' (0.252) wins;  Z: a line whose first frame has a single candidate character
     'W': ([[0.30, 0.28, 0.42], [0.05, 0.35, 0.60]], ''),
     'Z': ([[0.9, 1e-6, 0.1 - 1e-6], [0.05, 0.9, 0.05]], 'ab'),
+    # lines that cannot be decoded (the page decoder logs the failure and goes on):  N: no logits at all (a .logits file that lacks the line);
+    #    Kc: a confident line whose OCR text has a character the LM does not know - kept as it is under a threshold, and the NEXT line then
+    #    fails when the LM is primed from it
+    'N': (None, 'b'),
+    'Kc': ([[0.98, 0.01, 0.01], [0.01, 0.01, 0.98], [0.01, 0.98, 0.01]], 'c'),
 }
-PAGES = {'A': ['X1', 'K', 'X2'], 'B': ['X1', 'K', 'X3'], 'C': ['K', 'K2'], 'D': [], 'E': ['X2'], 'F': ['X1', 'X3'], 'G': ['Z'], 'H': ['W', 'X3']}
+PAGES = {'A': ['X1', 'K', 'X2'], 'B': ['X1', 'K', 'X3'], 'C': ['K', 'K2'], 'D': [], 'E': ['X2'], 'F': ['X1', 'X3'], 'G': ['Z'], 'H': ['W', 'X3'],
+         'I': ['X1', 'N', 'X2'], 'J': ['X1', 'Kc', 'X2', 'X3']}
 PAGE_IDS = sorted(PAGES)
-N_CORE_PAGES = 6                      # histories of three and more pages use the pages A-F; G and H take part in all histories of up to two
+N_CORE_PAGES = 6                      # histories of three and more pages use the pages A-F; G - J take part in all histories of up to two
+UNDECODABLE = {'I', 'J'}              # pages with a line on which decode_line raises (I: always; J: with an LM carried over a kept confident line)
+# the run-length sweep: page `last` after n repetitions of the one-line page E, for EVERY n up to the bound - whatever the library counts over the
+# lifetime of the decoder (lines, pages, calls) passes every phase at every line of the last page;  L: five ambiguous lines
+RUN_PAGES = {'L': ['X1', 'X3', 'X2', 'X1', 'X3']}
+RUN_FILL = 'E'
+RUN_LAST = ['A', 'L']
+RUN_THRESHOLDS = [0, 1]               # indices into THRESHOLDS
 DEC_CFGS = ['greedy', 'beam', 'beam_lm', 'beam_lm_carry', 'beam1_lm', 'beam1_lm_carry', 'beam_dropoutlm_carry']      # last: an LM with dropout, handed over as constructed
 THRESHOLDS = [None, 0.5, 0.0]
 # page alphabet for the PageParser driver: painted lines (y, x0, symbols)
@@ -60,7 +73,7 @@ IMG_PAGES = {
 }
 IMG_IDS = sorted(IMG_PAGES)
 PARSER_CFGS = ['greedy', 'beam', 'beam_thr', 'lm_carry']
-BOUNDS = {'quick': dict(depth=3, pdepth=3), 'thorough': dict(depth=4, pdepth=4)}
+BOUNDS = {'quick': dict(depth=3, pdepth=3, run=32, fdepth=3), 'thorough': dict(depth=4, pdepth=4, run=64, fdepth=4)}
 BOUNDS['replay'] = BOUNDS['quick']
 TMP = '/verif/.cache/tmp'
 REPO = os.path.abspath(os.environ.get('VERIF_REPO', '/repo'))
@@ -70,6 +83,7 @@ def setup(tier):
     from mc import pipeline
     os.makedirs(TMP, exist_ok=True)
     pipeline.engine_json()
+    orientation_stub()
     from pero_ocr.core.force_alignment import force_align
     force_align(np.asarray([[0.1, 2.0], [2.0, 0.1]]), [0], 1)
 
@@ -90,6 +104,13 @@ def shards(tier):
     out.append({'kind': 'import'})
     for first in range(len(SIMPLE_IDS)):
         out.append({'kind': 'simple', 'first': first})
+    for dc in range(len(DEC_CFGS)):
+        for th in RUN_THRESHOLDS:
+            for last in RUN_LAST:
+                out.append({'kind': 'run', 'cfg': [dc, th], 'last': last})
+    for fc in range(len(FILTER_CFGS)):
+        for first in range(len(FILTER_IDS)):
+            out.append({'kind': 'filter', 'cfg': fc, 'first': first})
     return out
 
 
@@ -133,6 +154,14 @@ def run_shard(shard, ctx, tier):
         for L in range(1, b['pdepth'] + 1):
             for rest in itertools.product(range(n), repeat=L - 1):
                 guarded_check(mod, {'simple': [shard['first']] + list(rest)}, ctx)
+    elif shard['kind'] == 'run':
+        for n in range(b['run'] + 1):
+            guarded_check(mod, {'run': shard['cfg'], 'fill': RUN_FILL, 'n': n, 'last': shard['last']}, ctx)
+    elif shard['kind'] == 'filter':
+        n = len(FILTER_IDS)
+        for L in range(1, b['fdepth'] + 1):
+            for rest in itertools.product(range(n), repeat=L - 1):
+                guarded_check(mod, {'filter': shard['cfg'], 'hist': [shard['first']] + list(rest)}, ctx)
     elif shard['kind'] == 'import':
         n = len(IMPORT_IDS)
         for L in range(1, 4):
@@ -159,13 +188,20 @@ def make_page_decoder(dc, th):
     return PageDecoder(dec, line_confidence_threshold=THRESHOLDS[th], carry_h_over=name.endswith('carry'))
 
 
-def make_logit_page(pid):
+def page_lines(pid):
+    return PAGES[pid] if pid in PAGES else RUN_PAGES[pid]
+
+
+def make_logit_page(pid, names=None):
     from scipy import sparse
     from pero_ocr.core.layout import PageLayout, RegionLayout, TextLine
     page = PageLayout(id=pid, page_size=(100, 100))
     reg = RegionLayout('r1', np.zeros((4, 2)))
-    for k, name in enumerate(PAGES[pid]):
+    for k, name in enumerate(page_lines(pid) if names is None else names):
         rows, text = LINES[name]
+        if rows is None:
+            reg.lines.append(TextLine(id=f'l{k}', logits=None, characters=list(CHARS), transcription=text))
+            continue
         M = np.log(np.asarray(rows, dtype=float))
         reg.lines.append(TextLine(id=f'l{k}', logits=sparse.csc_matrix(M), characters=list(CHARS), logit_coords=[0, M.shape[0]],
                                   transcription=text))
@@ -219,6 +255,15 @@ def check_dec(case, ctx):
         ctx.nontrivial((dc, th, tuple(hist)), 'predecessor-left-lm-context')
     if len(hist) >= 2 and hist[-1] == hist[-2]:
         ctx.tag('same-page-twice')
+    if len(hist) >= 2 and hist[-2] in UNDECODABLE and DEC_CFGS[dc].endswith('carry') and PAGES[hist[-1]]:
+        ctx.nontrivial((dc, th, tuple(hist)), 'predecessor-with-undecodable-line')
+        if len(hist) == 2:
+            # would it show if what the predecessor left behind reached this page?  decode the two pages as ONE page (the context then legitimately
+            # flows from the predecessor's lines into these): if that changes these lines, a leak across the page boundary is observable here
+            joined = make_page_decoder(dc, th).process_page(make_logit_page(hist[-1], PAGES[hist[-2]] + PAGES[hist[-1]]))
+            ctx.executed()
+            if [l.transcription for l in joined.lines_iterator()][len(PAGES[hist[-2]]):] != fresh:
+                ctx.tag('context-of-page-with-undecodable-line-would-change-result')
     if len(hist) == 2 and dc == 3 and th == 0:
         ctx.sample({'decoder': DEC_CFGS[dc], 'history': hist, 'result': res})
 
@@ -391,7 +436,7 @@ def check_import(case, ctx):
     ref = [None if l.heights is None else [float(x) for x in l.heights] for l in q.lines_iterator()]
     ctx.executed(len(hist) + 1)
     ctx.state(('import', tuple(hist), ver))
-    if any(g is None or r is None or len(g) != 2 or max(abs(a - b) for a, b in zip(g, r)) > 1e-6 for g, r in zip(got, ref)) or len(got) != len(ref):
+    if any(g is None or r is None or len(g) != 2 or not all(abs(a - b) <= 1e-6 for a, b in zip(g, r)) for g, r in zip(got, ref)) or len(got) != len(ref):
         ctx.violation('result-independent-of-history', f'{ID}/import/derived-line-heights-depend-on-history',
                       f'documents {hist} loaded in turn (lines without stored heights): the last one gets heights {got}; loaded on its own '
                       f'(other random state) it gets {ref}')
@@ -475,7 +520,146 @@ def check_simple(case, ctx):
         ctx.nontrivial(('simple', tuple(hist)), 'model-free-line-detection-after-other-pages')
 
 
+# ------------------------------------------------------------------ driver 1b: one page after a long run of pages (run-length sweep)
+def check_run(case, ctx):
+    """'decoding it after any sequence of other pages ... gives the same result as decoding it alone': the page `last` after n one-line pages, for
+    every n up to the bound (histories far longer than the depth bound of the full enumeration, along one axis: their length)"""
+    dc, th = case['run']
+    n, last = case['n'], case['last']
+    pd = make_page_decoder(dc, th)
+    for _ in range(n):
+        pd.process_page(make_logit_page(case['fill']))
+    res = [l.transcription for l in pd.process_page(make_logit_page(last)).lines_iterator()]
+    fresh = [l.transcription for l in make_page_decoder(dc, th).process_page(make_logit_page(last)).lines_iterator()]
+    ctx.executed(n + 2)
+    ctx.state(('run', dc, th, last, n, pd_state(pd)))
+    ctx.outcome(('run', dc, th, last, tuple(res)))
+    if res != fresh:
+        ctx.violation('result-independent-of-history', f'{ID}/PageDecoder/{DEC_CFGS[dc]}/depends-on-length-of-history',
+                      f'decoder {DEC_CFGS[dc]}, threshold {THRESHOLDS[th]}: page {last} {page_lines(last)} after {n} times the one-line page {case["fill"]} '
+                      f'decodes to {res}, alone to {fresh} (lines that differ: {[k for k in range(len(fresh)) if res[k] != fresh[k]]})')
+        return
+    if n > BOUNDS['thorough']['depth'] * 4 and DEC_CFGS[dc].endswith('carry'):
+        ctx.nontrivial(('run', dc, th, last, n), 'page-after-long-run-with-carried-lm-state')
+    if n == 0 and DEC_CFGS[dc].endswith('carry'):
+        # does the context gathered over SEVERAL lines matter on this page (would it show if it were cut short somewhere)?  the page without its
+        # first line, decoded alone, gives its remaining lines a shorter context
+        names = page_lines(last)
+        cut = [l.transcription for l in make_page_decoder(dc, th).process_page(make_logit_page(last, names[1:])).lines_iterator()]
+        ctx.executed()
+        if cut != fresh[1:]:
+            ctx.tag('context-older-than-previous-line-matters')
+
+
+# ------------------------------------------------------------------ driver 5: PageParser with a LINE_FILTER stage (orientation network)
+# The orientation network is a TorchScript stub whose answer is a local function of the image: direction x = 1 - 2 * channel 0, y = 1 - 2 * channel 1
+# (pixel values / 256), so the colour of a page (or of a half of it) says which way its text runs; the filter keeps left-to-right lines
+# unconditionally and every other line only if it runs the way the network sees the text under it.
+FS = 256
+_DIR_COLOUR = {'right': (0, 128), 'left': (255, 128), 'up': (128, 0), 'down': (128, 255)}
+
+
+def _fl(kind, c):
+    return {'R': [[30, c], [220, c]], 'L': [[220, c], [30, c]], 'D': [[c, 30], [c, 220]], 'U': [[c, 220], [c, 30]], 'r': [[5, c], [18, c]]}[kind]
+
+
+# page: (direction seen in the upper half, direction seen in the lower half, lines)
+FILTER_PAGES = {
+    'plain': ('right', 'right', [('R', 50), ('R', 100)]),                           # never needs the map
+    'margin': ('right', 'right', [('R', 50), ('R', 100), ('D', 240)]),              # upright page with a vertical note in the margin (dropped)
+    'turned': ('left', 'left', [('R', 50), ('L', 100), ('L', 150), ('D', 240)]),    # upside-down scan, one line given left to right
+    'flipped': ('left', 'left', [('L', 50), ('L', 100), ('L', 150)]),               # upside-down scan, all baselines right to left (all kept)
+    'junk': ('right', 'right', [('R', 50), ('L', 100), ('L', 150)]),                # upright page with right-to-left junk lines (dropped)
+    'halves': ('left', 'right', [('L', 50), ('R', 120), ('L', 200), ('r', 230)]),   # two scans on one sheet; a short line at the left edge
+    'rotated': ('down', 'down', [('D', 60), ('D', 120), ('U', 180)]),               # page turned by 90 degrees (D kept, U dropped)
+}
+FILTER_IDS = sorted(FILTER_PAGES)
+FILTER_CFGS = ['directions', 'directions+position+length']
+
+
+def orientation_stub():
+    """writes the stub network as <path>.cpu; returns (directory, file name without the suffix the loader appends on CPU)"""
+    import torch
+    from mc import stubs
+
+    class DirectionFromColour(torch.nn.Module):
+        def forward(self, x):
+            return 1.0 - 2.0 * x[:, 0:2, :, :]
+    os.makedirs(stubs.STUB_DIR, exist_ok=True)
+    name = 'c08_direction_from_colour.pt'
+    p = os.path.join(stubs.STUB_DIR, name + '.cpu')
+    if not os.path.exists(p):
+        tmp = p + f'.{os.getpid()}.tmp'
+        torch.jit.script(DirectionFromColour()).save(tmp)
+        os.replace(tmp, p)
+    return stubs.STUB_DIR, name
+
+
+def filter_parser(fc):
+    import configparser
+    import torch
+    from pero_ocr.document_ocr.page_parser import PageParser
+    d, name = orientation_stub()
+    more = FILTER_CFGS[fc] != 'directions'
+    cfg = configparser.ConfigParser()
+    cfg.read_dict({'PAGE_PARSER': {'RUN_LAYOUT_PARSER': 'yes', 'RUN_LINE_CROPPER': 'no', 'RUN_OCR': 'no', 'RUN_DECODER': 'no'},
+                   'LAYOUT_PARSER_1': {'METHOD': 'LINE_FILTER', 'FILTER_DIRECTIONS': 'yes', 'FILTER_INCOMPLETE_PAGES': 'yes' if more else 'no',
+                                       'FILTER_PAGES_WITH_SHORT_LINES': 'yes' if more else 'no', 'LENGTH_THRESHOLD': '100' if more else '0',
+                                       'USE_CPU': 'yes', 'MODEL_PATH': name}})
+    return PageParser(cfg, device=torch.device('cpu'), config_path=d)
+
+
+def filter_page(pid):
+    from pero_ocr.core.layout import PageLayout, RegionLayout, TextLine
+    top, bottom, lines = FILTER_PAGES[pid]
+    img = np.zeros((FS, FS, 3), dtype=np.uint8)
+    img[:FS // 2, :, 0], img[:FS // 2, :, 1] = _DIR_COLOUR[top]
+    img[FS // 2:, :, 0], img[FS // 2:, :, 1] = _DIR_COLOUR[bottom]
+    page = PageLayout(id=pid, page_size=(FS, FS))
+    reg = RegionLayout('r1', np.asarray([[0, 0], [FS, 0], [FS, FS], [0, FS]], dtype=float))
+    for k, (kind, c) in enumerate(lines):
+        bl = np.asarray(_fl(kind, c), dtype=float)
+        lo, hi = bl.min(axis=0) - 8, bl.max(axis=0) + 8
+        reg.lines.append(TextLine(id=f'l{k}-{kind}{c}', baseline=bl, polygon=np.asarray([[lo[0], lo[1]], [hi[0], lo[1]], [hi[0], hi[1]], [lo[0], hi[1]]]),
+                                  heights=[6, 2], transcription=f'{kind}{c}'))
+    page.regions.append(reg)
+    return img, page
+
+
+def check_filter(case, ctx):
+    """which lines of a page survive the filter (hence which transcriptions the page has) must be decided by that page: the last page of every
+    history through ONE parser keeps exactly the lines it keeps in a fresh parser"""
+    fc = case['filter']
+    hist = [FILTER_IDS[i] for i in case['hist']]
+
+    def kept(parser, pid):
+        img, page = filter_page(pid)
+        return [(r.id, l.id, l.transcription) for r in parser.process_page(img, page).regions for l in r.lines]
+    parser = filter_parser(fc)
+    got = None
+    for pid in hist:
+        got = kept(parser, pid)
+    try:
+        ref = kept(filter_parser(fc), hist[-1])
+    except Exception as e:  # noqa - the page alone fails although it came out of the history: these are two different results as well
+        ref = f'{type(e).__name__}: {e}'
+    ctx.executed(len(hist) + 1)
+    ctx.state(('filter', fc, tuple(hist[-2:])))
+    if got != ref:
+        ctx.violation('result-independent-of-history', f'{ID}/PageParser/line-filter/depends-on-history',
+                      f'LINE_FILTER ({FILTER_CFGS[fc]}): page {hist[-1]!r} {FILTER_PAGES[hist[-1]]} after {hist[:-1]} keeps the lines '
+                      f'{[g[1] for g in got]}; in a fresh parser: {[r[1] for r in ref] if isinstance(ref, list) else ref}')
+        return
+    ctx.outcome(('filter', fc, hist[-1], tuple(ref)))
+    if len(hist) >= 2 and FILTER_PAGES[hist[-2]][:2] != FILTER_PAGES[hist[-1]][:2] and any(k != 'R' for k, _ in FILTER_PAGES[hist[-1]][2]):
+        ctx.nontrivial(('filter', fc, tuple(hist)), 'line-filter-after-page-with-other-orientation-map')
+
+
 def check_case(case, ctx):
+    if 'run' in case:
+        return check_run(case, ctx)
+    if 'filter' in case:
+        return check_filter(case, ctx)
     if 'import' in case:
         return check_import(case, ctx)
     if 'simple' in case:
@@ -492,17 +676,22 @@ def check_case(case, ctx):
 
 def describe(tier):
     return {
-        'rule': 'all histories of up to depth pages (8-page alphabet up to depth 2, its 6 core pages beyond) on one PageDecoder x 7 decoder configurations x 3 thresholds; all histories '
+        'rule': 'all histories of up to depth pages (10-page alphabet up to depth 2 - two of the pages have a line that cannot be decoded -, its 6 core pages beyond) on one PageDecoder x 7 decoder configurations x 3 thresholds; '
+                'a 3-line and a 5-line page after n one-line pages for every n <= run x 7 decoder configurations x 2 thresholds; all histories of up to fdepth pages (7-page alphabet: '
+                'page colour = text direction seen by a stub orientation network, lines running right / left / down / up) on one PageParser with a LINE_FILTER stage x 2 configurations; all histories '
                 'of up to pdepth pages (5-page image alphabet) on one PageParser x 4 configurations; all 3-page batches x all assignments to 2 '
                 'deep-copied workers; 1 real parse_folder run with 2 processes. state = (configuration, carried last_line / LM state) resp. '
                 'recent history. Non-trivial: histories in which the predecessor page left LM context / had lines; assignments using both workers.',
         'bounds': BOUNDS[tier],
         'alphabets': {'pages': PAGES, 'lines': {k: v[1] for k, v in LINES.items()}, 'decoder_cfgs': DEC_CFGS,
                       'thresholds': [str(t) for t in THRESHOLDS], 'image_pages': {k: [l[2] for l in v] for k, v in IMG_PAGES.items()},
-                      'parser_cfgs': PARSER_CFGS},
+                      'parser_cfgs': PARSER_CFGS, 'run_pages': RUN_PAGES, 'run_last': RUN_LAST, 'run_fill': RUN_FILL,
+                      'filter_pages': {k: [v[0], v[1], [f'{a}{b}' for a, b in v[2]]] for k, v in FILTER_PAGES.items()}, 'filter_cfgs': FILTER_CFGS},
         'assumptions': ['a Pool worker is a fork-time copy that shares nothing with the others (modelled by deepcopy)',
                         'counters lines_examined / lines_decoded / seconds_decoding only feed decoding_summary()'],
         'min_nontrivial': 50,
         'required_tags': ['model-free-line-detection-after-other-pages', 'import-after-other-imports', 'predecessor-left-lm-context', 'same-page-twice', 'parser-history-with-predecessor', 'both-workers-used',
-                          'real-multiprocess-run'],
+                          'real-multiprocess-run', 'predecessor-with-undecodable-line', 'context-of-page-with-undecodable-line-would-change-result',
+                          'page-after-long-run-with-carried-lm-state', 'context-older-than-previous-line-matters',
+                          'line-filter-after-page-with-other-orientation-map'],
     }
